@@ -5,6 +5,7 @@ package geom
 func init() {
 	vfHarnesses["C06_marshal"] = vfhC06Marshal
 	vfHarnesses["C06_roundtrip"] = vfhC06RoundTrip
+	vfHarnesses["C06_roundtrip_collection"] = vfhC06RoundTripCollection
 	vfHarnesses["C06_decode_positions"] = vfhC06DecodePositions
 }
 
@@ -198,5 +199,50 @@ func vfhC06DecodePositions() {
 	vfAssert((pt.UnmarshalJSON([]byte(pdoc)) == nil) == (np != 1), "decoding into the matching concrete type succeeds")
 	_, err = UnmarshalGeoJSON([]byte(`{"type":"Circle","coordinates":[1,2]}`), NoValidate{})
 	vfAssert(err != nil, "unknown type is an error")
+	vfReach("end")
+}
+
+// A collection of a full member and a member of symbolic kind (incl. the empty
+// geometry of every type), nested one level: the format's only losses are M
+// and empty Points inside MultiPoints.
+func vfhC06RoundTripCollection() {
+	ct := vfCT("ct")
+	full := NewPoint(vfFiniteCoords("p", ct)).AsGeometry()
+	var other Geometry
+	switch vfInt("kind", 0, 8) {
+	case 0:
+		other = NewEmptyPoint(ct).AsGeometry()
+	case 1:
+		other = LineString{}.ForceCoordinatesType(ct).AsGeometry()
+	case 2:
+		other = Polygon{}.ForceCoordinatesType(ct).AsGeometry()
+	case 3:
+		other = MultiPoint{}.ForceCoordinatesType(ct).AsGeometry()
+	case 4:
+		other = MultiLineString{}.ForceCoordinatesType(ct).AsGeometry()
+	case 5:
+		other = MultiPolygon{}.ForceCoordinatesType(ct).AsGeometry()
+	case 6:
+		other = GeometryCollection{}.ForceCoordinatesType(ct).AsGeometry()
+	case 7:
+		other = NewMultiLineString([]LineString{NewLineString(vfFiniteSeq("l", 2, ct)), LineString{}.ForceCoordinatesType(ct)}).AsGeometry()
+	default:
+		other = NewMultiPolygon([]Polygon{Polygon{}.ForceCoordinatesType(ct)}).AsGeometry()
+	}
+	members := []Geometry{full, other}
+	if vfBool("other-first") {
+		members[0], members[1] = members[1], members[0]
+	}
+	g := NewGeometryCollection(members).AsGeometry()
+	if vfBool("nested") {
+		g = NewGeometryCollection([]Geometry{g}).AsGeometry()
+	}
+	js, err := g.MarshalJSON()
+	vfAssert(err == nil, "marshal succeeds")
+	h, err := UnmarshalGeoJSON(js, NoValidate{})
+	vfAssert(err == nil, "the output decodes")
+	want := vfDropM(g)
+	vfAssert(h.CoordinatesType() == want.CoordinatesType(), "Z kept (the document contains a position), M dropped")
+	vfAssert(vfGeomBits(h, want), "same structure, XY and Z bit-identical")
 	vfReach("end")
 }
